@@ -33,6 +33,11 @@ def loc_keys(E: Engine, node: ast.AST, st: State, fr: Frame):
         if v.t.kind == "iter":
             return [(("itpos",), v.z)]
         raise CheckerError(f"modifies: contents() of {v.t}")
+    if isinstance(node, ast.Call) and isinstance(node.func, ast.Name) and node.func.id == "values":
+        v = E.ev(node.args[0], st, fr)
+        if v.t.kind != "dict":
+            raise CheckerError(f"modifies: values() of {v.t}")
+        return [(("dv", v.t.args[0], v.t.args[1]), v.z)]
     if isinstance(node, ast.Call) and isinstance(node.func, ast.Name) and node.func.id == "glob":
         cname, attr = node.args[0].value.split(".")
         r = E.spec.field(cname, attr, E.prog.mro(cname))
@@ -51,18 +56,21 @@ def modset(E: Engine, c: FnContract, pre_view: State, cfr: Frame) -> dict:
             out.setdefault(key, []).append(("all",))
             continue
         if isinstance(node, ast.GeneratorExp):
-            gen = node.generators[0]
-            kind, payload = E.comp_iter(gen, pre_view, sub)
-            if kind != "seq":
-                raise CheckerError("modifies: comprehension must range over a sequence")
-            seq, et = payload
-            x = fresh("mq", ty.zsort(et))
             sub2 = Frame(cfr.qname, cfr.module, cfr.cls, c, None, old=None, spec=True, entry_locals=cfr.entry_locals, binds={})
-            E.bind_target(gen.target, V(et, x), sub2.binds)
-            conds = [E.truthy(E.ev(cn, pre_view, sub2), pre_view, sub2) for cn in gen.ifs]
-            guard = z3.And(seq_ops(et).Mem(seq, x), *conds)
+            xs, guards = [], []
+            for gen in node.generators:
+                kind, payload = E.comp_iter(gen, pre_view, sub2)
+                if kind != "seq":
+                    raise CheckerError("modifies: comprehension must range over a sequence")
+                seq, et = payload
+                x = fresh("mq", ty.zsort(et))
+                E.bind_target(gen.target, V(et, x), sub2.binds)
+                xs.append(x)
+                guards.append(seq_ops(et).Mem(seq, x))
+                guards.extend(E.truthy(E.ev(cn, pre_view, sub2), pre_view, sub2) for cn in gen.ifs)
+            guard = z3.And(*guards)
             for key, ref in loc_keys(E, node.elt, pre_view, sub2):
-                out.setdefault(key, []).append(("quant", x, guard, ref))
+                out.setdefault(key, []).append(("quant", xs, guard, ref))
             continue
         for key, ref in loc_keys(E, node, pre_view, sub):
             out.setdefault(key, []).append(("obj", ref) if ref is not None else ("all",))
@@ -93,8 +101,8 @@ def not_in_modset(entries, r):
         if e[0] == "obj":
             conj.append(r != e[1])
         else:
-            _q, x, guard, ref = e
-            conj.append(z3.ForAll([x], z3.Implies(guard, r != ref)))
+            _q, xs, guard, ref = e
+            conj.append(z3.ForAll(list(xs), z3.Implies(guard, r != ref)))
     return z3.And(*conj) if conj else z3.BoolVal(True)
 
 
@@ -145,20 +153,41 @@ def wf_after_havoc(E: Engine, st: State, ms: dict):
     wf_keys(E, st, list(ms.keys()))
 
 
-def loop_frame_assumption(E: Engine, st: State, fr: Frame, key, new, at_entry):
-    """Inside a loop, objects outside the enclosing function's modifies clause keep their loop-entry value."""
-    if fr.modsets is None or key[0] in ("alloc", "glob", "itsrc", "itpos"):
-        return
+def frame_formula(E: Engine, fr: Frame, st: State, key):
+    """Objects outside the enclosing function's modifies clause hold their function-entry value."""
+    if fr.modsets is None or fr.old is None or key[0] in ("alloc", "glob", "itsrc", "itpos"):
+        return None
+    if fr.contract is not None and fr.contract.gen:
+        return None   # coroutine: the environment acts at every yield; frames are the two-state step postconditions
     entries = fr.modsets.get(key)
+    if entries is not None and any(e[0] == "all" for e in entries):
+        return None
     r = fresh("r", ty.RefSort)
-    old_alloc = E.alloc(fr.old) if fr.old is not None else None
-    if entries is None:
-        cond = z3.Select(old_alloc, r) if old_alloc is not None else z3.BoolVal(True)
-    else:
-        if any(e[0] == "all" for e in entries):
-            return
-        cond = z3.And(z3.Select(old_alloc, r), not_in_modset(entries, r))
-    st.assume(z3.ForAll([r], z3.Implies(cond, z3.Select(new, r) == z3.Select(at_entry, r)), patterns=[z3.Select(new, r)]))
+    cond = z3.Select(E.alloc(fr.old), r)
+    if entries:
+        cond = z3.And(cond, not_in_modset(entries, r))
+    now, was = E.h(st, key), E.h(fr.old, key)
+    body = z3.Implies(cond, z3.Select(now, r) == z3.Select(was, r))
+    try:
+        return z3.ForAll([r], body, patterns=[z3.Select(now, r)])
+    except z3.Z3Exception:
+        return z3.ForAll([r], body)
+
+
+def loop_frame_assumption(E: Engine, st: State, fr: Frame, key, new, at_entry):
+    f = frame_formula(E, fr, st, key)
+    if f is not None:
+        st.assume(f)
+
+
+def loop_frame_check(E: Engine, st: State, fr: Frame, keys, k, kind):
+    """The inductive step behind loop_frame_assumption: entry state and the end of one iteration satisfy it."""
+    if not fr.verify:
+        return
+    for key in keys:
+        f = frame_formula(E, fr, st, key)
+        if f is not None:
+            E.oblige(fr, st, kind, f"loop{k}:{keyname(key)}", f, info="locations outside the modifies clause are unchanged since function entry")
 
 
 def fn_table(E: Engine):
@@ -189,6 +218,7 @@ Engine.havoc_modset = havoc_modset
 Engine.wf_keys = wf_keys
 Engine.wf_after_havoc = wf_after_havoc
 Engine.loop_frame_assumption = loop_frame_assumption
+Engine.loop_frame_check = loop_frame_check
 Engine.fn_table = fn_table
 Engine.call_function = calls.call_function
 Engine.apply_contract = calls.apply_contract
@@ -259,6 +289,9 @@ def verify_function(E: Engine, q: str) -> dict:
     for r in c.requires:
         st.assume(E.sev_bool(r, st, pre_frame))
     old = st.copy()
+    if q.endswith(".__init__"):
+        # the object under construction is not part of the pre-state: writes to it are outside the frame
+        old.heap[("alloc",)] = z3.Store(E.alloc(st), st.locals["self"].z, False)
     fr.old = old
     fr.modsets = modset(E, c, view(old), Frame(q, mod, cls, c, None, old=None, spec=True, entry_locals=dict(st.locals)))
     # vacuity: the precondition must be satisfiable
